@@ -74,16 +74,7 @@ pub fn install_panic_hook() {
     std::panic::set_hook(Box::new(|info| {
         let loc = info
             .location()
-            .map(|l| {
-                let f = l.file();
-                let f = f.strip_prefix("/repo/").unwrap_or(f);
-                // a path dependency is referred to relatively: normalise ../../../repo/
-                let f = match f.find("repo/sim/") {
-                    Some(i) => &f[i + 5..],
-                    None => f,
-                };
-                format!("{}:{}", f, l.line())
-            })
+            .map(|l| site_of(l.file(), l.line()))
             .unwrap_or_else(|| "<unknown>".into());
         let msg = if let Some(s) = info.payload().downcast_ref::<&str>() {
             s.to_string()
@@ -102,6 +93,40 @@ pub fn install_panic_hook() {
             eprintln!("panic: {info}");
         }
     }));
+}
+
+/// A panic site that survives unrelated edits of the file: repository-relative path plus the
+/// text of the source line (line numbers shift when code is added above).
+fn site_of(file: &str, line: u32) -> String {
+    use std::sync::{Mutex, OnceLock};
+    static CACHE: OnceLock<Mutex<std::collections::HashMap<String, Vec<String>>>> = OnceLock::new();
+    let rel = {
+        let f = file.strip_prefix("/repo/").unwrap_or(file);
+        match f.find("repo/sim/") {
+            Some(i) => f[i + 5..].to_string(),
+            None => f.to_string(),
+        }
+    };
+    let cache = CACHE.get_or_init(|| Mutex::new(Default::default()));
+    let text = {
+        let mut g = match cache.lock() {
+            Ok(g) => g,
+            Err(p) => p.into_inner(),
+        };
+        let lines = g.entry(file.to_string()).or_insert_with(|| {
+            std::fs::read_to_string(file)
+                .map(|t| t.lines().map(|l| l.trim().to_string()).collect())
+                .unwrap_or_default()
+        });
+        lines.get(line.saturating_sub(1) as usize).cloned()
+    };
+    match text {
+        Some(t) if !t.is_empty() => {
+            let t: String = t.chars().take(70).collect();
+            format!("{rel} `{t}`")
+        }
+        _ => format!("{rel}:{line}"),
+    }
 }
 
 pub fn threads() -> usize {
